@@ -44,6 +44,9 @@ CHECKS = {
  "C15": dict(tech="exhaustive enumeration of all token strings up to length 4 (5 on a reduced alphabet) over the UCI vocabulary through the real parser and command loop, plus all sessions of <=2 (3) representative lines on the real executable ended by quit and by end-of-input",
    text="Every token string up to the length bound is parsed by UCICommand::new under catch_unwind (a panic there kills the main thread) and a seventh of the non-search lines is executed through the real uci_loop; on the real executable every session of representative valid and malformed lines, each followed by isready, must answer readyok within 2 s and exit within 2 s of quit and of closed stdin.",
    ref="2/C15", note="FEN contents are not fuzzed (the property assumes valid FEN). Search-thread panics are counted but not judged by this property.", engine="sessions"),
+ "C10": dict(tech="stateless exploration of all merges of a GUI command script with the search thread's labelled steps on the real executable (blocking schedule points; deviation-bounded in quick, all merges in thorough), each schedule on a fresh process and replay-checked",
+   text="For seven command scripts every interleaving of the input thread's commands with the search thread's held points {enter, armed, first iteration done, before bestmove, after bestmove, exit} that respects the GUI protocol is executed on the real binary; per schedule every go must be answered by exactly one bestmove legal in the position it was given, a processed stop must bring the bestmove within 2 s, every isready a readyok, and nothing may be reported as refused. Quick: all schedules with <= 2 deviations from the default order; thorough: all of them.",
+   ref="2/C10", note="Trusted base: the schedule-point hand-shake in src/rce_verif.rs and the controller. Interleavings finer than the labelled points are not explored; an unbounded search is kept at its first iteration boundary until a stop is sent (a stop mid-iteration is observationally the same: the flag is read only at polls).", engine="scheduler"),
 }
 
 NOT_YET = {}
@@ -82,6 +85,7 @@ def main():
         {"name": "cutpoints", "path": "/verif/harness/src/verif/cutprops.rs", "serves_properties": ["C09","C13","C14"], "kind_free_text": "stateless re-execution of the real search once per interruption point (node budget / emulated stop / virtual clock) in single-threaded worker processes"},
         {"name": "sessions", "path": "/verif/harness/src/verif/session.rs", "serves_properties": ["C08","C09","C14","C15"], "kind_free_text": "bounded enumeration of UCI command sessions on the real executable against a 1-variable session model"},
         {"name": "tables", "path": "/verif/harness/src/verif/tablesprop.rs", "serves_properties": ["C06"], "kind_free_text": "complete input-domain enumeration"},
+        {"name": "scheduler", "path": "/verif/harness/src/verif/sched.rs", "serves_properties": ["C10"], "kind_free_text": "stateless schedule explorer over the real executable: choice-sequence DFS with deviation bound, schedule points block the engine's threads until released"},
         {"name": "explorer", "path": "/verif/harness/src/verif/explore.rs", "serves_properties": ["C01","C02","C03","C04","C05"], "kind_free_text": "explicit-state DFS over the engine's real make/unmake with an independent oracle in lock-step (16 threads)"},
       ],
       "checks": checks,
